@@ -253,9 +253,9 @@ func (a address) assign(k bool, value int8, valueType reflect.Type) {
 		a.em.fb.emitSetMap(k, a.op1, value, a.op2, a.addressedType, a.pos)
 		a.em.fb.emitSetVar(false, a.op1, a.nonLocal, a.addressedType.Kind())
 	case assignLocalStructSelector:
-		a.em.fb.emitSetField(k, a.op1, a.op2, value, valueType.Kind())
+		a.em.fb.emitSetField(k, a.op1, a.op2, value, valueType.Kind(), a.pos)
 	case assignNonLocalStructSelector:
-		a.em.fb.emitSetField(k, a.op1, a.op2, value, valueType.Kind())
+		a.em.fb.emitSetField(k, a.op1, a.op2, value, valueType.Kind(), a.pos)
 		a.em.fb.emitSetVar(false, a.op1, a.nonLocal, a.addressedType.Kind())
 	}
 }
@@ -323,7 +323,7 @@ func (em *emitter) emitAssignmentOperation(addr address, rh ast.Expression) {
 		em.changeRegister(false, addr.op1, c, addrTyp, addrTyp)
 	case assignLocalStructSelector,
 		assignNonLocalStructSelector:
-		em.fb.emitField(addr.op1, addr.op2, c, typ.Kind())
+		em.fb.emitField(addr.op1, addr.op2, c, typ.Kind(), addr.pos)
 	}
 
 	// Emit the code that evaluates the right side of the assignment.
